@@ -65,9 +65,10 @@ def run_model(name, configs, *, acts, max_steps, record, max_perm=3, emit=False,
 
 # -- concrete world -----------------------------------------------------------------
 
-def make_fn(failpath, names, mode):
+def make_fn(failpath, names, mode, version=1):
     """The swept function, defined in a closure so that cloudpickle ships it by value.
-    Returns a token of exactly its keyword arguments; raises on the tokens listed in failpath."""
+    Returns a token of exactly its keyword arguments (the constant kattr shifts it by 10^6 per unit above 7);
+    version 1 raises on the tokens listed in failpath, version 2 (the corrected function) never does."""
     def fn(**kw):
         import json as _json
         extra = sorted(set(kw) - set(names))
@@ -75,15 +76,19 @@ def make_fn(failpath, names, mode):
         for j, nm in enumerate(names):
             tok += int(kw[nm]) * (100 ** j)
         want_extra = ["kattr", "t"] if mode == "xvt" else ["kattr"]
-        if extra != want_extra or kw["kattr"] != 7:
+        if extra != want_extra or kw["kattr"] not in (7, 8):
             tok = -1          # constants must be passed exactly
-        try:
-            with open(failpath) as fh:
-                bad = _json.load(fh)
-        except Exception:
-            bad = []
+        bad = []
+        if version == 1:
+            try:
+                with open(failpath) as fh:
+                    bad = _json.load(fh)
+            except Exception:
+                bad = []
         if tok in bad:
             raise ValueError("vx-fail")
+        if tok >= 0:
+            tok += (kw["kattr"] - 7) * 1000000
         if mode == "scalar":
             return float(tok)
         if mode == "xy":
@@ -127,7 +132,9 @@ class World(object):
             self.tok_of[i + 1] = t
             self.id_of_tok[t] = i + 1
         self.set_failing(sorted(cfg["failing"]) if isinstance(cfg["failing"], (list, set)) else [])
-        self.fn = make_fn(self.failpath, tuple(self.names), self.mode)
+        self.fn = make_fn(self.failpath, tuple(self.names), self.mode, 1)
+        self.kver = 0           # version of the farmer's constants
+        self.expect_k = 0       # constants version the model says is baked into the sown batches
         self.cause = cfg["cause"]
         self.cause_fixed = False
         self.data_dir = os.path.join(self.tmp, "sub") if cfg["cause"] == "save" else self.tmp
@@ -167,7 +174,7 @@ class World(object):
             names, dims = ["x", "v"], {"v": ["t"]}
         if broken:
             names = names + ["zz"]
-        consts = {"kattr": 7}
+        consts = {"kattr": 7 + self.kver}
         kw = dict(fn_args=self.names, var_dims=dims, constants=consts, attrs={"note": "hello"})
         if mode == "xv":
             kw["var_coords"] = {"t": [0.5, 1.5]}
@@ -209,6 +216,9 @@ class World(object):
                 self.crop = xyz.Crop(**kw)          # farmer un-pickled from the settings file
                 self.farmer = self.crop.farmer
             else:
+                if from_disk and not first:
+                    from xyzpy.gen.cropping import from_pickle, read_from_disk, FNCT_NM
+                    self.fn = from_pickle(read_from_disk(os.path.join(self.tmp, ".xyz-vxcrop", FNCT_NM)))
                 self.farmer = self.make_farmer(broken=broken)
                 self.crop = xyz.Crop(farmer=self.farmer, **kw)
         return self.crop
@@ -307,12 +317,15 @@ def compare_obs(w, post, step):
         return "missing_results()=%r, expected %r" % (o["missing"], list(post["missing"]))
     if o["ready"] != post["ready"]:
         return "is_ready_to_reap()=%r, expected %r" % (o["ready"], post["ready"])
+    import fnmatch
     want_b = ["xyz-batch-%d.jbdmp" % i for i in range(1, post["sown"] + 1)]
-    if sorted(o["files_batches"]) != sorted(want_b):
+    got_b = [f for f in o["files_batches"] if fnmatch.fnmatch(f, "xyz-batch-*.jbdmp")]
+    if sorted(got_b) != sorted(want_b):
         return "batches/ holds %r" % (o["files_batches"],)
     present = [i for i in range(1, post["sown"] + 1) if i not in post["missing"]]
     want_r = ["xyz-result-%d.jbdmp" % i for i in present]
-    if sorted(o["files_results"]) != sorted(want_r):
+    got_r = [f for f in o["files_results"] if fnmatch.fnmatch(f, "xyz-result-*.jbdmp")]
+    if sorted(got_r) != sorted(want_r):
         return "results/ holds %r, expected %r" % (o["files_results"], sorted(want_r))
     if "str_error" in o:
         return "str(crop) raised " + o["str_error"]
@@ -331,7 +344,7 @@ def read_batches(w):
             kw = dict(kw)
             extra = {k: kw.pop(k) for k in list(kw) if k not in w.names}
             extra.pop("t", None)
-            if extra != {"kattr": 7} or set(kw) != set(w.names):
+            if extra != {"kattr": 7 + w.expect_k} or set(kw) != set(w.names):
                 ids.append(-1)
                 continue
             t = sum(int(kw[nm]) * (100 ** j) for j, nm in enumerate(w.names))
@@ -343,17 +356,25 @@ def read_batches(w):
 
 # -- value projection --------------------------------------------------------------------
 
+def tok_id(w, v):
+    """token (a number) -> setting id, or -1; the constant's version must be the one the model says was sown"""
+    v = int(v)
+    if v < 0 or v // 1000000 != w.expect_k:
+        return -1
+    return w.id_of_tok.get(v % 1000000, -1)
+
+
 def leaf_id(w, x):
     mode = w.mode
     try:
         if mode == "scalar":
             v = float(x)
-            return 0 if math.isnan(v) else w.id_of_tok.get(int(v), -1)
+            return 0 if math.isnan(v) else tok_id(w, v)
         if mode == "xy":
             a, b = (float(np.asarray(x[0])), float(np.asarray(x[1])))
             if math.isnan(a) and math.isnan(b):
                 return 0
-            return w.id_of_tok.get(int(a), -1) if b == 2 * a else -1
+            return tok_id(w, a) if b == 2 * a else -1
         if mode in ("array", "xv"):
             xs = x if mode == "array" else None
             a = np.asarray([np.asarray(v, dtype=float) for v in x], dtype=float)
@@ -361,13 +382,13 @@ def leaf_id(w, x):
                 return -1
             if np.isnan(a).all():
                 return 0
-            return w.id_of_tok.get(int(a[0]), -1) if a[1] == a[0] + 0.5 else -1
+            return tok_id(w, a[0]) if a[1] == a[0] + 0.5 else -1
         if mode == "str":
             # None is the documented placeholder for str/bool; an un-requested slot next to a missing
             # first batch gets NaN instead - both read as "missing" here (C09 does not name the marker)
             if x is None or (isinstance(x, float) and math.isnan(x)):
                 return 0
-            return w.id_of_tok.get(int(str(x)[1:]), -1)
+            return tok_id(w, int(str(x)[1:]))
         if mode == "bool":
             if x is None or (isinstance(x, float) and math.isnan(x)):
                 return 0
@@ -415,7 +436,7 @@ def check_value(w, res, want, to_df=False):
             i = req[loc]
             seen.add(i)
             x = float(row["x"])
-            got = 0 if math.isnan(x) else w.id_of_tok.get(int(x), -1)
+            got = 0 if math.isnan(x) else tok_id(w, x)
             if got != wantmap[loc]:
                 return "row for setting %d carries the value of setting %s, expected %s" % (i, got, wantmap[loc])
         if len(seen) != len(req):
@@ -430,7 +451,7 @@ def check_value(w, res, want, to_df=False):
     for k, loc in enumerate(locs):
         sel = res.sel(dict(zip(w.names, loc)))
         x = float(sel["x"].values)
-        got = 0 if math.isnan(x) else w.id_of_tok.get(int(x), -1)
+        got = 0 if math.isnan(x) else tok_id(w, x)
         if got != want[k]:
             return "ds.sel(%r)['x'] is the value of setting %s, expected %s" % (dict(zip(w.names, loc)), got, want[k])
         if w.mode == "xy":
@@ -500,7 +521,7 @@ def check_store(w, store_ids):
                 x = float(ds["x"].sel(dict(zip(w.names, loc))).values)
             except KeyError:
                 x = float("nan")
-            got = 0 if math.isnan(x) else w.id_of_tok.get(int(x), -1)
+            got = 0 if math.isnan(x) else tok_id(w, x)
             if i == 1 and w.cfg["cause"] == "merge" and x == -5.0 and not (w.overwrite and 1 in ids):
                 continue      # the conflicting value that was on disk before (environment of cause "merge")
             if got != (i if i in ids else 0):
@@ -519,10 +540,8 @@ def classify(exc):
     from xyzpy.utils import XYZError
     if exc is None:
         return "ok"
-    if isinstance(exc, ValueError) and "vx-fail" in str(exc):
-        return "raised"
-    if isinstance(exc, XYZError) and "not ready to reap" in str(exc):
-        return "refused"
+    if "vx-fail" in str(exc) or "vx-fail" in repr(getattr(exc, "__cause__", "")):
+        return "raised"          # our own function's failure came through
     return "error"
 
 
@@ -538,7 +557,10 @@ def do_step(w, ev):
         with contextlib.redirect_stdout(sink), contextlib.redirect_stderr(sink):
             if a in ("sow", "resow"):
                 if a == "sow":
-                    crop = w.new_handle(first=True)
+                    if w.crop is None:
+                        crop = w.new_handle(first=True)
+                    else:
+                        crop = w.crop          # a second campaign on the very same Crop object
                 kw = {}
                 if cfg["bwhere"] == "sow" and a == "sow":
                     if cfg["bmode"] == "size":
@@ -604,7 +626,17 @@ def do_step(w, ev):
             elif a == "grow_missing":
                 crop.grow_missing(verbosity=0)
             elif a == "fix_fn":
-                w.set_failing([])
+                # the corrected function is put into the session's objects; workers see it after a re-sow
+                w.fn = make_fn(w.failpath, tuple(w.names), w.mode, 2)
+                w.crop.fn = w.fn
+                if w.farmer is not None:
+                    w.farmer.fn = w.fn
+            elif a == "change_const":
+                w.kver = 1
+                r = w.farmer if w.farmer_kind == "runner" else w.farmer.runner
+                c = dict(r.constants)
+                c["kattr"] = 7 + w.kver
+                r.constants = c
             elif a == "delete":
                 os.remove(os.path.join(crop.location, "results", "xyz-result-%d.jbdmp" % args[0]))
             elif a == "corrupt":
@@ -615,7 +647,11 @@ def do_step(w, ev):
             elif a == "check_bad":
                 crop.check_bad()
             elif a == "reload":
-                w.new_handle(from_disk=w.variant.get("reload_from_disk", True))
+                w.new_handle(from_disk=bool(args[0]))
+                if args[0]:
+                    w.fn = w.crop.fn         # the session continues with the function un-pickled from the crop
+                    if w.farmer is not None and w.farmer.fn is None:
+                        w.farmer.fn = w.fn
             elif a == "fix_cause":
                 c = args[0]
                 w.cause_fixed = True
@@ -670,6 +706,7 @@ def replay_case(case, variant):
         with ForcedShuffle(perms):
             for k, ev in enumerate(case["hist"]):
                 post = ev["post"]
+                w.expect_k = ev.get("k", 0)
                 outcome, ret, exc = do_step(w, ev)
                 want = post["outcome"]
                 if ev["a"] == "reap":
@@ -696,7 +733,7 @@ def replay_case(case, variant):
                                 if prob:
                                     return ("step %d reap%r: %s" % (k, tuple(ev["args"]), prob), "direct", k, notes)
                     elif want == "refused":
-                        if outcome != "refused":
+                        if outcome == "returned":
                             return ("step %d reap%r on an incomplete crop: %s, model says refused with an error" % (
                                 k, tuple(ev["args"]), outcome if exc is None else type(exc).__name__ + ": " + str(exc)[:120]), "reap_refuse", k, notes)
                     elif want == "error_nothing":
@@ -708,6 +745,8 @@ def replay_case(case, variant):
                             return ("step %d reap%r returned although the model says it must fail (%s)" % (
                                 k, tuple(ev["args"]), w.cause), "reap_should_fail", k, notes)
                 else:
+                    if want == "raised" and outcome == "error":
+                        outcome = "raised"       # the call failed because the function failed; the exception type is not demanded
                     if outcome != want and drifted and w.cfg["failing"]:
                         notes.append("model_drift (after batch-order drift): outcome %s vs %s" % (outcome, want))
                         return None, None, k, notes
